@@ -33,6 +33,44 @@ type rTx struct {
 	Ins       []outpoint
 	Outs      []rOut
 	ScriptsOK bool
+	SigOpCost uint32 // 4 x legacy signature-operation count of the transaction's scripts (refSigOps). The reference applies the
+	// 80000 limit; NO generator produces a block above it, because the Lean model's commitTxs (Model/UtxoOps, shared with
+	// C04's refinement proof and therefore not changed here) has no such test — stated under NOT COVERED in the manifest
+}
+
+const maxBlockSigOpsCost = 80000
+
+// refSigOps = CScript::GetSigOpCount(fAccurate=false) of script.cpp: CHECKSIG(VERIFY) = 1, CHECKMULTISIG(VERIFY) = 20,
+// pushes skipped; a script that cannot be parsed counts what was seen so far.
+func refSigOps(scr []byte) (n uint32) {
+	for i := 0; i < len(scr); {
+		op := scr[i]
+		i++
+		switch {
+		case op >= 1 && op <= 75:
+			i += int(op)
+		case op == 76:
+			if i >= len(scr) {
+				return
+			}
+			i += 1 + int(scr[i])
+		case op == 77:
+			if i+1 >= len(scr) {
+				return
+			}
+			i += 2 + int(scr[i]) + int(scr[i+1])<<8
+		case op == 78:
+			if i+3 >= len(scr) {
+				return
+			}
+			i += 4 + int(scr[i]) + int(scr[i+1])<<8 + int(scr[i+2])<<16 + int(scr[i+3])<<24
+		case op == 0xac || op == 0xad:
+			n++
+		case op == 0xae || op == 0xaf:
+			n += 20
+		}
+	}
+	return
 }
 
 type rBlock struct {
@@ -125,6 +163,13 @@ func refApplyOrdered(view map[outpoint]rCoin, b *rBlock) (map[outpoint]rCoin, st
 	}
 	if cbout > subsidy(b.Height)+fees {
 		return nil, "coinbase pays too much"
+	}
+	var cost uint32
+	for _, tx := range b.Txs {
+		cost += tx.SigOpCost
+	}
+	if cost > maxBlockSigOpsCost {
+		return nil, "too many signature operations"
 	}
 	return w, ""
 }
